@@ -59,10 +59,10 @@ func goFuncs(args []string) error {
 					}
 					generic := x.Type.TypeParams != nil && len(x.Type.TypeParams.List) > 0
 					funcs = append(funcs, map[string]any{"kind": kind, "name": x.Name.Name, "recv": recv, "generic": generic,
-						"line": fs.Position(x.Name.Pos()).Line})
+						"line": fs.PositionFor(x.Name.Pos(), false).Line})
 				}
 			case *ast.FuncLit:
-				funcs = append(funcs, map[string]any{"kind": "lit", "name": "", "line": fs.Position(x.Pos()).Line})
+				funcs = append(funcs, map[string]any{"kind": "lit", "name": "", "line": fs.PositionFor(x.Pos(), false).Line})
 			}
 			return true
 		})
